@@ -332,9 +332,9 @@ def sweep_opentherm(job: dict) -> dict:
 ARRAY_CODES = {
     # code: (element regex tail after the 2-char index, element total hex len, sources [(shape, src type)])
     "0009": ("0[01](00|FF)", 6, (("a-a", "01"), ("a-a", "23"))),
-    "000A": ("[0-9A-F]{10}", 12, (("a-a", "01"), ("--c", "12"), ("--c", "22"))),
-    "2309": ("[0-9A-F]{4}", 6, (("a-a", "01"), ("--c", "12"), ("--c", "22"))),
-    "30C9": ("[0-9A-F]{4}", 6, (("a-a", "01"), ("--c", "12"), ("--c", "22"))),
+    "000A": ("[0-9A-F]{10}", 12, (("a-a", "01"), ("a-a", "23"), ("--c", "12"), ("--c", "22"))),
+    "2309": ("[0-9A-F]{4}", 6, (("a-a", "01"), ("a-a", "23"), ("--c", "12"), ("--c", "22"))),
+    "30C9": ("[0-9A-F]{4}", 6, (("a-a", "01"), ("a-a", "23"), ("--c", "12"), ("--c", "22"))),
     "2249": ("[0-9A-F]{12}", 14, (("a-a", "23"),)),
     "22C9": ("[0-9A-F]{8}0[12]", 12, (("a-a", "02"),)),
     "3150": ("[0-9A-F]{2}", 4, (("a-a", "02"), ("a-a", "01"))),
@@ -389,7 +389,10 @@ def explore_arrays(job: dict) -> dict:
         for el in c["elements"]:
             s1, p1, _ = decode(mk(c, [el])["line"])
             if s1 != "ok":
-                col.note("array element does not decode alone")
+                # the array decoded, so each of its elements is 'what decodes on its own' by the statement: an element that the decoder
+                # rejects when it comes alone (same source, same addresses) breaks the element-wise relation
+                col.violation({"clause": "array-element-rejected-alone", "code": c["code"], "src": c["src"][:2]}, {"line": f["line"], "element": el},
+                              f"the array decodes, its element {el} alone does not: {s1}")
                 return
             if isinstance(p1, dict):
                 p1 = {k: v for k, v in p1.items() if k != "seqx_num"}  # packet-level metadata, added to dict payloads only
